@@ -687,6 +687,13 @@ fn fmt_case(st: &mut Stream, f: &FmtDoc, resp: &Value, family: &str) {
     st.case(terms, vec![format!("I {} {}", id, iline)], desc);
 }
 
+/// a replay file holds {"case": ..} or {"cases": [..]} (the corpus, replayed in one batch)
+fn replay_cases(v: &Value) -> Vec<Value> {
+    match v.get("cases") {
+        Some(Value::Array(a)) => a.clone(),
+        _ => vec![v["case"].clone()],
+    }
+}
 fn p(s: &str) -> MapDoc {
     MapDoc::Path(s.into())
 }
@@ -696,8 +703,9 @@ fn fmt_stream(a: &Args) {
     if let Some(pth) = &a.replay {
         st.full = true;
         let v: Value = parse_json_exact(&std::fs::read_to_string(pth).unwrap()).unwrap();
-        let case = &v["case"];
-        fmt_case(&mut st, &fmtdoc_from_desc(&case["fmt"]), &case["resp"], "replay");
+        for case in replay_cases(&v) {
+            fmt_case(&mut st, &fmtdoc_from_desc(&case["fmt"]), &case["resp"], case["corpus"].as_str().unwrap_or("replay"));
+        }
         st.finish();
         return;
     }
@@ -1246,10 +1254,12 @@ fn sink_stream(a: &Args) {
     if let Some(pth) = &a.replay {
         st.full = true;
         let v: Value = serde_json::from_str(&std::fs::read_to_string(pth).unwrap()).unwrap();
-        let pr: SinkParams = serde_json::from_value(v["case"]["params"].clone()).unwrap();
-        sink_case(&mut st, &pr, "replay", &dir);
+        for case in replay_cases(&v) {
+            let pr: SinkParams = serde_json::from_value(case["params"].clone()).unwrap();
+            sink_case(&mut st, &pr, case["corpus"].as_str().unwrap_or("replay"), &dir);
+        }
         st.finish();
-        return;
+        std::process::exit(0);
     }
     let base = SinkParams { seed: 1, format: 0, threads: 1, chunks: 1, rayon: false, responses: 1, size: 0, flush: vec![None], runs: 1,
                             duplicates: false, preexisting: None, bulk: false, jitter: false };
@@ -1330,6 +1340,9 @@ struct AppParams {
     runs: usize,
     /// file policy from the application's TOML configuration instead of the run configuration
     toml_policy: bool,
+    /// the batch itself (corpus witnesses); generated from the seed when absent
+    #[serde(default)]
+    explicit: Option<Vec<Value>>,
 }
 
 fn app_toml(out: &Path) -> String {
@@ -1405,14 +1418,14 @@ fn app_case(st: &mut Stream, app: &Arc<CompassApp>, pr: &AppParams, family: &str
     let mut prev_len = 0usize;
     let mut hung = false;
     for _run in 0..pr.runs {
-        let queries: Vec<Value> = (0..pr.queries)
+        let queries: Vec<Value> = if let Some(q) = &pr.explicit { kinds.insert("explicit"); if q.iter().any(|x| x.get("query_weight_estimate").is_some()) { kinds.insert("bad_weight"); } q.clone() } else { (0..pr.queries)
             .map(|_| match r.below(8) {
                 0 => { kinds.insert("unknown_vertex"); json!({"origin_vertex": r.range(0, 2), "destination_vertex": 99}) }
                 1 => { kinds.insert("bad_weight"); json!({"origin_vertex": r.range(0, 2), "destination_vertex": r.range(0, 2), "query_weight_estimate": "abc"}) }
                 2 => { kinds.insert("not_an_object"); json!(7) }
                 _ => { kinds.insert("search"); json!({"origin_vertex": r.range(0, 2), "destination_vertex": r.range(0, 2)}) }
             })
-            .collect();
+            .collect() };
         let mut cfg = json!({"parallelism": pr.parallelism,
             "response_persistence_policy": if pr.persist { "persist_response_in_memory" } else { "discard_response_from_memory" }});
         if !pr.toml_policy {
@@ -1584,12 +1597,14 @@ fn app_stream(a: &Args) {
     if let Some(pth) = &a.replay {
         st.full = true;
         let v: Value = serde_json::from_str(&std::fs::read_to_string(pth).unwrap()).unwrap();
-        let pr: AppParams = serde_json::from_value(v["case"]["params"].clone()).unwrap();
-        app_case(&mut st, &app, &pr, "replay", &dir);
+        for case in replay_cases(&v) {
+            let pr: AppParams = serde_json::from_value(case["params"].clone()).unwrap();
+            app_case(&mut st, &app, &pr, case["corpus"].as_str().unwrap_or("replay"), &dir);
+        }
         st.finish();
-        return;
+        std::process::exit(0);
     }
-    let base = AppParams { seed: 1, queries: 4, parallelism: 2, persist: true, csv: false, sorted: false, flush: None, runs: 1, toml_policy: false };
+    let base = AppParams { seed: 1, queries: 4, parallelism: 2, persist: true, csv: false, sorted: false, flush: None, runs: 1, toml_policy: false, explicit: None };
     // the D-ERRNOTWRITTEN witness shape and both policies / formats at small size
     for persist in [true, false] {
         for csv in [false, true] {
@@ -1605,7 +1620,7 @@ fn app_stream(a: &Args) {
         let pr = AppParams {
             seed: r.next_u64(), queries: 1 + r.below(60) as usize, parallelism: 1 + r.below(16) as usize, persist: r.chance(1, 2),
             csv: r.chance(1, 2), sorted: r.chance(1, 2), flush: if r.chance(1, 2) { None } else { Some(1 + r.below(9) as i64) },
-            runs: if r.chance(1, 4) { 2 } else { 1 }, toml_policy: false,
+            runs: if r.chance(1, 4) { 2 } else { 1 }, toml_policy: false, explicit: None,
         };
         if !app_case(&mut st, &app, &pr, "random", &dir) {
             break; // the global rayon pool holds deadlocked workers: nothing more can be learnt in this process
